@@ -1,7 +1,7 @@
 #!/bin/sh
 # (re)create _CoqProject file list and Makefile
 cd "$(dirname "$0")"
-{ head -2 _CoqProject; find theories -name '*.v' ! -path 'theories/Corr/cases/*' | sort; } > _CoqProject.new
+{ head -2 _CoqProject; find theories -name '*.v' ! -path 'theories/Corr/cases/*' ! -name '*_pa.v' | sort; } > _CoqProject.new
 if ! cmp -s _CoqProject.new _CoqProject || [ ! -f Makefile ]; then
   mv _CoqProject.new _CoqProject
   coq_makefile -f _CoqProject -o Makefile >/dev/null
